@@ -42,6 +42,10 @@ type c07Case struct {
 	// connection to the same address, where a well-behaved server offered STARTTLS with a valid
 	// certificate and AUTH PLAIN LOGIN.
 	Prior bool `json:"prior,omitempty"`
+	// DefaultPorts: the Client is created WITHOUT a port option, so that the port setters' own logic
+	// (587 with fallback 25 and the like) is in force; the judged plain-text server listens on port 25,
+	// nobody listens on 587/465.
+	DefaultPorts bool `json:"default_ports,omitempty"`
 }
 
 func c07Policy(p string) mail.TLSPolicy {
@@ -122,6 +126,12 @@ func c07Run(c c07Case) []*core.Violation {
 	var err error
 	fallback := c.Policy == "implicit-fallback"
 	switch {
+	case c.DefaultPorts:
+		ln, err = refsmtp.ListenTCPPort(c.Host, 25, srv, false)
+		if err != nil {
+			rec.AddExtra("skipped_port_25_not_bindable", 1)
+			return nil
+		}
 	case fallback:
 		// implicit TLS with a fallback port: the primary port refuses the connection and a PLAIN-TEXT
 		// SMTP server answers on the fallback port 25
@@ -154,12 +164,19 @@ func c07Run(c c07Case) []*core.Violation {
 	if fallback {
 		opts = append(opts, mail.WithSSLPort(true))
 	}
-	opts = append(opts, mail.WithPort(port))
+	if !c.DefaultPorts {
+		opts = append(opts, mail.WithPort(port))
+	}
 	polOpt := c.Policy
-	if len(c.Setup) > 0 {
+	if len(c.Setup) > 0 || c.Opt != "" {
 		polOpt = c.Opt
 	}
 	switch polOpt {
+	case "implicit+none":
+		// implicit TLS ("SMTPS"), and no STARTTLS on top of it
+		opts = append(opts, mail.WithSSL(), mail.WithTLSPolicy(mail.NoTLS))
+	case "implicit+opportunistic":
+		opts = append(opts, mail.WithSSL(), mail.WithTLSPolicy(mail.TLSOpportunistic))
 	case "mandatory":
 		opts = append(opts, mail.WithTLSPolicy(mail.TLSMandatory))
 	case "opportunistic":
@@ -342,7 +359,7 @@ func c07Run(c c07Case) []*core.Violation {
 	// evidence
 	deviates := !c.StartTLS || c.TLSReply != "ok" || c.Handshake != "ok"
 	if deviates || c.Policy != "none" {
-		rec.NonTrivial(core.Join(c.Policy, c.Auth, c.Host, c.StartTLS, c.TLSReply, c.Handshake, c.AuthList, c.Opt, strings.Join(c.Setup, ">"), c.Prior))
+		rec.NonTrivial(core.Join(c.Policy, c.Auth, c.Host, c.StartTLS, c.TLSReply, c.Handshake, c.AuthList, c.Opt, strings.Join(c.Setup, ">"), c.Prior, c.DefaultPorts))
 		rec.Sample(c.Policy+"/"+c.Handshake+"/"+c.TLSReply, map[string]interface{}{"case": c, "error": fmt.Sprint(callErr), "sessions": len(sessions)})
 	}
 	rec.Class("policy:" + c.Policy)
@@ -404,10 +421,21 @@ func c07LifecycleCases() []c07Case {
 			}
 		}
 	}
-	for _, setup := range [][]string{{"policy:none", "ssl:true"}, {"sslport:true"}, {"portpolicy:none", "sslport:true"}} {
+	for _, setup := range [][]string{{"policy:none", "ssl:true"}, {"sslport:true"}, {"portpolicy:none", "sslport:true"},
+		// implicit TLS first, a STARTTLS policy afterwards: the policy says nothing about implicit TLS
+		{"ssl:true", "policy:none"}, {"sslport:true", "policy:none"}, {"ssl:true", "policy:opportunistic"}, {"ssl:true", "portpolicy:none"}, {"ssl:true", "policy:mandatory"}} {
 		for _, host := range []string{"127.0.0.1", "127.0.0.2"} {
 			for _, hs := range []string{"ok", "garbage"} {
 				out = append(out, c07Case{Policy: "implicit", Opt: "none", Setup: setup, Auth: "PLAIN", Host: host, StartTLS: false, TLSReply: "ok", Handshake: hs, AuthList: "PLAIN LOGIN"})
+			}
+		}
+	}
+	for _, opt := range []string{"implicit+none", "implicit+opportunistic"} {
+		for _, setup := range [][]string{nil, {"policy:none"}, {"policy:opportunistic"}} {
+			for _, host := range []string{"127.0.0.1", "127.0.0.2"} {
+				for _, hs := range []string{"ok", "garbage"} {
+					out = append(out, c07Case{Policy: "implicit", Opt: opt, Setup: setup, Auth: "PLAIN", Host: host, StartTLS: false, TLSReply: "ok", Handshake: hs, AuthList: "PLAIN LOGIN"})
+				}
 			}
 		}
 	}
@@ -427,7 +455,7 @@ func c07LifecycleCases() []c07Case {
 
 func c07Describe() {
 	rec := core.Rec("C07")
-	rec.Rule = "real TCP sessions (default dialers, the client's DEFAULT tls.Config with the harness CA installed as the only system root through SSL_CERT_FILE) of DialAndSend against the reference server on 127.0.0.1 (a localhost name by go-mail's rule) and 127.0.0.2 (not): product of TLS policy {mandatory, default (no option), opportunistic, none, implicit} x 13 auth types x host x server behaviour {STARTTLS advertised or not; STARTTLS answered 220 / 454 / 502 / garbage; handshake ok / certificate for another name / certificate of an untrusted CA / garbage bytes; plain-text speaker on the implicit-TLS port; implicit TLS configured with a fallback port (WithSSLPort) where the primary port refuses and a plain-text server listens on the fallback port 25} x advertised AUTH lists (2 in quick, 7 in thorough, incl. only-cleartext mechanisms, empty, absent). Lifecycle cases: the policy established by a sequence of setter calls (SetTLSPolicy, SetTLSPortPolicy, SetSSL, SetSSLPort after other policies were set first, with or without a weaker policy option) instead of an option, and the judged DialAndSend being the SECOND connection of one Client whose first connection (DialWithContext + Close) met a well-behaved server at the same address offering STARTTLS with a valid certificate and AUTH PLAIN LOGIN. Fresh random 16-character credentials per case. Both tiers enumerate their product completely (quick with 2 AUTH lists, thorough with 7). TestC07Names adds, over in-memory connections, 18 host names around go-mail's localhost rule (exact names, names that merely start/end with or contain 'localhost', 127.x look-alikes) x {none, opportunistic without STARTTLS} x {PLAIN, LOGIN, AUTODISCOVER} x 3 AUTH lists. " +
+	rec.Rule = "real TCP sessions (default dialers, the client's DEFAULT tls.Config with the harness CA installed as the only system root through SSL_CERT_FILE) of DialAndSend against the reference server on 127.0.0.1 (a localhost name by go-mail's rule) and 127.0.0.2 (not): product of TLS policy {mandatory, default (no option), opportunistic, none, implicit} x 13 auth types x host x server behaviour {STARTTLS advertised or not; STARTTLS answered 220 / 454 / 502 / garbage; handshake ok / certificate for another name / certificate of an untrusted CA / garbage bytes; plain-text speaker on the implicit-TLS port; implicit TLS configured with a fallback port (WithSSLPort) where the primary port refuses and a plain-text server listens on the fallback port 25} x advertised AUTH lists (2 in quick, 7 in thorough, incl. only-cleartext mechanisms, empty, absent). Default-port cases (no port option: a port policy leaves a fallback port 25 behind, a later policy setter makes TLS mandatory, the primary port 587 is closed and a plain-text server answers on 25). Lifecycle cases: the policy established by a sequence of setter calls (SetTLSPolicy, SetTLSPortPolicy, SetSSL, SetSSLPort after other policies were set first, with or without a weaker policy option) instead of an option, and the judged DialAndSend being the SECOND connection of one Client whose first connection (DialWithContext + Close) met a well-behaved server at the same address offering STARTTLS with a valid certificate and AUTH PLAIN LOGIN. Fresh random 16-character credentials per case. Both tiers enumerate their product completely (quick with 2 AUTH lists, thorough with 7). TestC07Names adds, over in-memory connections, 18 host names around go-mail's localhost rule (exact names, names that merely start/end with or contain 'localhost', 127.x look-alikes) x {none, opportunistic without STARTTLS} x {PLAIN, LOGIN, AUTODISCOVER} x 3 AUTH lists. " +
 		"Oracle on the byte tap: under mandatory policy the cleartext consists of EHLO/HELO, STARTTLS and QUIT lines only, no session continues after a handshake with an invalid certificate, nothing but QUIT (or TLS records) follows a failed handshake; implicit TLS: first byte is a TLS record and no SMTP verb in clear; under every policy the PLAIN/LOGIN password never appears in the cleartext raw, hex or base64 (3 alignments) unless the type is *-NOENC or the host is localhost; AUTODISCOVER never issues AUTH PLAIN/LOGIN/XOAUTH2 on an unencrypted connection. " +
 		"Non-trivial: the server deviates from the happy path or the policy is not 'none'. Distinct by the case tuple."
 	rec.Assumptions = []string{"Go's root loader honours SSL_CERT_FILE/SSL_CERT_DIR (Linux)", "127.0.0.2 is bindable on the loopback interface"}
@@ -465,6 +493,28 @@ func TestC07Enum(t *testing.T) {
 					c := c07Case{Policy: "implicit-fallback", Auth: auth, Host: host, StartTLS: k%2 == 0, TLSReply: "ok", Handshake: "ok", AuthList: al,
 						User: "user" + core.Hash(fmt.Sprint("fu", k)), Pass: core.Hash(fmt.Sprint("fp", k, core.Seed)) + "Qq7"}
 					core.Rec("C07").AddExtra("implicit_tls_fallback_port_cases", 1)
+					if v := p.RunOne(c); v != nil {
+						t.Fatalf("VIOLATION-DETAIL property=C07 %s", v)
+					}
+				}
+			}
+		}
+	}
+	if core.Shard == 0 {
+		// default ports: a port policy leaves a fallback port behind, a later policy setter does not
+		// clear it; the primary port (587) is closed, the plain-text server answers on 25
+		k := 0
+		for _, host := range []string{"127.0.0.1", "127.0.0.2"} {
+			for _, setup := range [][]string{{"portpolicy:opportunistic", "policy:mandatory"}, {"portpolicy:opportunistic", "portpolicy:mandatory"}, {"sslport:true", "ssl:false", "policy:mandatory"}, {"portpolicy:opportunistic"}, {"portpolicy:mandatory"}} {
+				for _, adv := range []bool{false, true} {
+					k++
+					pol := "mandatory"
+					if len(setup) == 1 && setup[0] == "portpolicy:opportunistic" {
+						pol = "opportunistic"
+					}
+					c := c07Case{Policy: pol, Setup: setup, DefaultPorts: true, Auth: "PLAIN", Host: host, StartTLS: adv, TLSReply: map[bool]string{false: "ok", true: "4yz"}[adv], Handshake: "ok", AuthList: "PLAIN LOGIN",
+						User: "user" + core.Hash(fmt.Sprint("du", k)), Pass: core.Hash(fmt.Sprint("dp", k, core.Seed)) + "Zz9"}
+					core.Rec("C07").AddExtra("default_port_cases", 1)
 					if v := p.RunOne(c); v != nil {
 						t.Fatalf("VIOLATION-DETAIL property=C07 %s", v)
 					}
